@@ -79,8 +79,26 @@ pub fn run_case(prog: &[Vec<Op>], rng: &mut Rng, script: Option<Vec<usize>>) -> 
     run_case_prefill(prog, rng, script, 0)
 }
 
+/// Starvation choreography for `try_pop_if`: thread 0 pushes m values and ends; thread 1 (the victim) calls
+/// try_pop_if with a predicate every element satisfies; thread 2 (the thief) pops k < m times.  The director lets the
+/// victim run up to its head CAS (site 42), lets the thief complete one pop, lets the victim lose the CAS, and so
+/// on: the victim loses k races in a row while the queue is never empty.  It must keep trying and finally succeed:
+/// an "empty" answer contradicts C17 (caught by the history monitor and by the model replay).
+pub fn run_case_starve(m: usize, k: usize, rng: &mut Rng) -> (String, Vec<String>) {
+    let prog: Vec<Vec<Op>> = vec![
+        (1..=m as u64).map(Op::Push).collect(),
+        vec![Op::PopIf(m as u64 + 5)],
+        (0..k).map(|_| Op::Pop).collect(),
+    ];
+    run_case_inner(&prog, rng, None, m, true)
+}
+
 /// `prefill`: thread 0 runs alone until it has completed that many operations
 pub fn run_case_prefill(prog: &[Vec<Op>], rng: &mut Rng, script: Option<Vec<usize>>, prefill: usize) -> (String, Vec<String>) {
+    run_case_inner(prog, rng, script, prefill, false)
+}
+
+fn run_case_inner(prog: &[Vec<Op>], rng: &mut Rng, script: Option<Vec<usize>>, prefill: usize, starve: bool) -> (String, Vec<String>) {
     let collector = Collector::new();
     let q = Arc::new(VQueue::new());
     let sentinel = q.head_addr();
@@ -133,6 +151,25 @@ pub fn run_case_prefill(prog: &[Vec<Op>], rng: &mut Rng, script: Option<Vec<usiz
     let nt = prog.len();
     let res = match script {
         Some(s) => sched::run(bodies, enabled, 100_000, &mut policy::scripted(s)),
+        None if starve => {
+            let mut chooser = move |r: &[usize], _k: usize, trace: &[sched::Step]| {
+                let pick = |t: usize| r.iter().position(|&x| x == t);
+                if let Some(i) = pick(0) {
+                    return i; // fill the queue first
+                }
+                // the victim waits at its head CAS iff its last step began with site 41 (load of head.next)
+                let at_cas = trace.iter().rev().find(|st| st.tid == 1).map(|st| st.obs.first().map(|o| o.0) == Some(41)).unwrap_or(false);
+                let cas_done = trace.iter().filter(|st| st.tid == 1 && st.obs.first().map(|o| o.0) == Some(42)).count();
+                let thief_pops = trace.iter().filter(|st| st.tid == 2).map(|st| st.obs.iter().filter(|o| o.0 == 2000).count()).sum::<usize>();
+                if at_cas && thief_pops <= cas_done {
+                    if let Some(i) = pick(2) {
+                        return i;
+                    }
+                }
+                pick(1).or(pick(2)).unwrap_or(0)
+            };
+            sched::run_observed(bodies, enabled, 100_000, &mut chooser)
+        }
         None if prefill > 0 => {
             let mut r2 = Rng::new(rng.next());
             let mut chooser = move |r: &[usize], _k: usize, trace: &[sched::Step]| {
